@@ -13,6 +13,14 @@ package dastard
 // publish on both channels after every request (the long ones) or choose one of the four patterns after
 // every request (the probe families). So a channel may meet PAUSE / UNPAUSE / STOP / a second START before
 // it has stored its first record of the run, while the other channel already has.
+//
+// Environment deviation (fault family): once per history, before one of the requests, the experiment-state
+// file that is open at that moment starts to fail (its descriptor is closed under the server: every later
+// write to it and its close return an error), so a later STOP / START / UNPAUSE-with-label reports an error
+// part-way through. From the fault on NOTHING is demanded of a request's outcome (not that the state is
+// unchanged, not that files are closed) except the core clause: a record published under a reported state
+// that says active and not paused is in the files of the reported run, once per enabled type of an eligible
+// channel, and a record published under any other reported state is nowhere.
 
 import (
 	"fmt"
@@ -113,6 +121,8 @@ type vWCModel struct {
 	starts   int
 	removals int
 	records  int // tagged records published so far (per channel)
+	faulted  bool // the experiment-state file has been made to fail (fault family): only the landing oracle applies from here on
+	faultHit int  // requests that returned an error after the fault
 }
 
 // projMask: bit ch set = channel ch has projectors (and so is eligible for OFF files)
@@ -262,6 +272,41 @@ func (m *vWCModel) userRemove(x *vexp.X, rq vWCReq, probe int) (string, string) 
 	return m.publishTagged(x, probe)
 }
 
+// injectFault: the experiment-state file open at this moment fails from now on (no-op on the file system if
+// none is open): its descriptor is closed under the server, so every later write to it and its close fail.
+func (m *vWCModel) injectFault(x *vexp.X) {
+	m.faulted = true
+	if f := m.ds.writingState.experimentStateFile; f != nil {
+		f.Close()
+		x.Logf("FAULT: the experiment-state file %s fails from now on", strings.TrimPrefix(f.Name(), m.base))
+	} else {
+		x.Logf("FAULT: no experiment-state file is open: nothing fails")
+	}
+}
+
+// requestAfterFault issues one request after the fault. Its outcome is not judged; the reported state after
+// it is what the records published next are judged against (finish), and a run directory the reported
+// pattern names is one whose files are decoded.
+func (m *vWCModel) requestAfterFault(x *vexp.X, rq vWCReq, probe int) (string, string) {
+	err := m.ds.WriteControl(&WriteControlConfig{Request: rq.req, Path: m.base, WriteLJH22: rq.l22, WriteLJH3: rq.l3, WriteOFF: rq.off})
+	after := m.ds.ComputeWritingState()
+	x.Logf("%s -> err=%v ; reported %s pattern %q", rq.name, err, vWSKey(after), strings.TrimPrefix(after.FilenamePattern, m.base))
+	if err != nil {
+		m.faultHit++
+	}
+	if after.FilenamePattern != "" {
+		known := false
+		for _, run := range m.runs {
+			known = known || run.pattern == after.FilenamePattern
+		}
+		if !known {
+			m.starts++
+			m.runs = append(m.runs, vWCRunDir{pattern: after.FilenamePattern, dir: filepath.Dir(after.FilenamePattern)})
+		}
+	}
+	return m.publishTagged(x, probe)
+}
+
 // request issues one write-control request and checks the reported state against the reference; then one
 // tagged record is published on every channel of the mask probe. (An operation that is itself a record
 // publication does just that.)
@@ -272,6 +317,9 @@ func (m *vWCModel) request(x *vexp.X, rq vWCReq, probe int) (string, string) {
 	}
 	if rq.user != "" {
 		return m.userRemove(x, rq, probe)
+	}
+	if m.faulted {
+		return m.requestAfterFault(x, rq, probe)
 	}
 	before := m.ds.ComputeWritingState()
 	dirsBefore := vListRunDirs(m.base)
@@ -352,8 +400,16 @@ func (m *vWCModel) canon() string {
 
 // finish stops writing, pushes one more record (must not land anywhere) and decodes every file.
 func (m *vWCModel) finish(x *vexp.X) (string, string) {
+	stopFailed := false
 	if err := m.ds.WriteControl(&WriteControlConfig{Request: "STOP"}); err != nil {
-		return "final STOP failed: " + err.Error(), "stop-error"
+		if !m.faulted {
+			return "final STOP failed: " + err.Error(), "stop-error"
+		}
+		// after the fault a failing STOP is the environment's doing: what it leaves behind is judged like the
+		// outcome of any other request, by the record published next under the state reported then
+		stopFailed = true
+		m.faultHit++
+		x.Logf("final STOP -> err=%v ; reported %s", err, vWSKey(m.ds.ComputeWritingState()))
 	}
 	sizes := map[string]int64{}
 	filepath.Walk(m.base, func(p string, info os.FileInfo, err error) error {
@@ -365,10 +421,18 @@ func (m *vWCModel) finish(x *vexp.X) (string, string) {
 	if v, c := m.publishTagged(x, vWCBoth); v != "" {
 		return v, c
 	}
-	m.steps = m.steps[:len(m.steps)-1]
+	if stopFailed {
+		// whatever a channel still buffers reaches its file before the files are decoded
+		for _, dsp := range m.ds.processors {
+			dsp.DataPublisher.Flush()
+		}
+		sizes = nil
+	} else {
+		m.steps = m.steps[:len(m.steps)-1]
+	}
 	var grew []string
 	filepath.Walk(m.base, func(p string, info os.FileInfo, err error) error {
-		if err == nil && !info.IsDir() && sizes[p] != info.Size() {
+		if sizes != nil && err == nil && !info.IsDir() && sizes[p] != info.Size() {
 			grew = append(grew, p)
 		}
 		return nil
@@ -472,6 +536,11 @@ var vWCMasks = []int{1, 2, 3, 0}
 // the tagged record published after hist[i] (probes == nil: both channels after every operation that is not
 // itself a record publication).
 func vWCRun(x *vexp.X, reqs []vWCReq, hist []int, probes []int, projMask, maxDirs int) (string, vexp.Result) {
+	return vWCRunFault(x, reqs, hist, probes, projMask, maxDirs, -1)
+}
+
+// vWCRunFault: faultAt >= 0 = the experiment-state file starts to fail just before hist[faultAt].
+func vWCRunFault(x *vexp.X, reqs []vWCReq, hist []int, probes []int, projMask, maxDirs, faultAt int) (string, vexp.Result) {
 	vWCSeq++
 	base := filepath.Join(os.Getenv("TMPDIR"), fmt.Sprintf("wc%d", vWCSeq))
 	os.MkdirAll(base, 0755)
@@ -479,6 +548,10 @@ func vWCRun(x *vexp.X, reqs []vWCReq, hist []int, probes []int, projMask, maxDir
 	defer m.close()
 	var names []string
 	for i, oi := range hist {
+		if i == faultAt {
+			m.injectFault(x)
+			names = append(names, "FAULT(experiment-state file fails from now on)")
+		}
 		probe := vWCBoth
 		if probes != nil {
 			probe = probes[i]
@@ -498,6 +571,10 @@ func vWCRun(x *vexp.X, reqs []vWCReq, hist []int, probes []int, projMask, maxDir
 	nontrivial := m.starts > 0 && m.records > 0
 	if v, c := m.finish(x); v != "" {
 		return "", vexp.Result{Violation: fmt.Sprintf("history %v: %s", names, v), Class: c}
+	}
+	if faultAt >= 0 {
+		// fault family: non-trivial = the fault was felt (a request returned an error after it)
+		nontrivial = nontrivial && m.faultHit > 0
 	}
 	return canon, vexp.Result{Nontrivial: nontrivial, Outcome: outcome}
 }
@@ -532,6 +609,17 @@ func TestVerifC06(t *testing.T) {
 			coreOps = append(coreOps, q)
 		}
 	}
+	// the alphabet of the fault family: the legal requests and the UNPAUSE that writes to the experiment-state file
+	var faultOps []vWCReq
+	for _, q := range reqs {
+		if q.name == "START{LJH22}" || q.name == "START{LJH3 OFF}" || q.name == "STOP" || q.name == "PAUSE" || q.name == "UNPAUSE" || q.name == "UNPAUSE lbl" {
+			faultOps = append(faultOps, q)
+		}
+	}
+	faultDepth := 4
+	if r.Thorough() {
+		faultDepth = 5
+	}
 	depth, maxDirs, dirDepth := 4, 2, 6
 	// probe families, depth per projector assignment (index into vWCMasks; 0 = family not run for it)
 	probeDepth, coreDepth := []int{2, 2, 2, 2}, []int{3, 3, 0, 0}
@@ -555,10 +643,14 @@ func TestVerifC06(t *testing.T) {
 		"one tagged record on both channels after every request; "+
 		"plus un-merged DFS of all sequences over {%s} to depth %d (proj-on-ch0), records as before; "+
 		"plus probe families (un-merged DFS): after every request, the last one included, one of {%s} is published: all sequences of the %d requests to depth (%s) "+
-		"and all sequences over {%s} to depth (%s)",
+		"and all sequences over {%s} to depth (%s); "+
+		"plus the fault family (environment deviation, un-merged DFS, proj-on-ch0): all sequences over {%s} of length %d with ONE fault placed before the 2nd..last request "+
+		"(the experiment-state file open at that moment fails from then on: descriptor closed under the server; the final STOP of the check may fail too), one tagged record on both channels after every request and after the final STOP; "+
+		"from the fault on only the landing oracle applies (reported active and not paused <=> the record is in the files of the reported run)",
 		len(reqs), vWCSortedNames(reqs), len(vWCUserOps()), vWCSortedNames(vWCUserOps()), len(vWCProbeOps()), vWCSortedNames(vWCProbeOps()), maxDirs, strings.Join(vWCMaskNames, ", "),
 		len(reqs), depth, vWCSortedNames(dirOps), dirDepth,
-		strings.Join(vWCProbeNames, ", "), len(reqs), depthList(probeDepth), vWCSortedNames(coreOps), depthList(coreDepth)))
+		strings.Join(vWCProbeNames, ", "), len(reqs), depthList(probeDepth), vWCSortedNames(coreOps), depthList(coreDepth),
+		vWCSortedNames(faultOps), faultDepth))
 	for mi, mask := range vWCMasks {
 		mask := mask
 		r.BFS("bfs/"+vWCMaskNames[mi], vexp.BFSSpec{NumOps: len(all), Run: func(x *vexp.X, hist []int) (string, vexp.Result) {
@@ -593,6 +685,20 @@ func TestVerifC06(t *testing.T) {
 					hist = append(hist, x.Choose(len(dirOps)))
 				}
 				_, res := vWCRun(x, dirOps, hist, nil, vWCMasks[0], 0)
+				return res
+			})
+		}
+	}
+	// the fault family: one I/O fault per history, before any request but the first (before the first no file is open)
+	for first := range faultOps {
+		for at := 1; at < faultDepth; at++ {
+			first, at := first, at
+			r.DFS(fmt.Sprintf("dfs-fault/%s/first=%s/fault-before-request-%d", vWCMaskNames[0], faultOps[first].name, at+1), -1, func(x *vexp.X) vexp.Result {
+				hist := []int{first}
+				for len(hist) < faultDepth {
+					hist = append(hist, x.Choose(len(faultOps)))
+				}
+				_, res := vWCRunFault(x, faultOps, hist, nil, vWCMasks[0], 0, at)
 				return res
 			})
 		}
